@@ -64,6 +64,20 @@ def run(chk):
         rel = [x for x in ast.walk(f.node) if isinstance(x, ast.Assign) and "nSout / nSold" in A.text(x.value)]
         chk.verdict("FF5", (f, rel[0] if rel else f.node), rel[0] if rel else "nSout / nSold", True if rel else False,
                     f"{f.short}: the local discarded weight is not nSout / nSold")
+    chk.rule("P3", "shallow_copy takes over every mutable state field of the MPS (A, pC, factor)", floor=3)
+    run_P3(chk)
+    # the discarded weight of truncate_/zipper is relative to the *complete* spectrum: the decomposition that produces S must not
+    # receive the user's truncation / partial-svd options
+    for f in (O.methods["diagonalize_central_"], prog.func(COMP, "_zipper_MpoOBC"), prog.func(COMP, "_zipper_MpoPBC")):
+        b = A.local_bindings(f.node)
+        for st, v, k in b.get("S", []):
+            if isinstance(v, ast.Call) and (A.call_name(v) or "").split(".")[-1] == "svd" and "nSold" in b:
+                partial = [kw for kw in v.keywords if kw.arg is None or kw.arg in ("policy", "D_block", "D_total", "k", "k_block", "tol", "tol_block")]
+                chk.verdict("FF5", (f, st), f"{f.short}: `{A.short(v, 60)}` is a complete decomposition", False if partial else True,
+                            f"{f.short}: the decomposition whose spectrum normalises the discarded weight receives "
+                            f"`{', '.join('**' + A.text(kw.value) if kw.arg is None else kw.arg for kw in partial)}`: with a partial-svd policy only part of the "
+                            f"spectrum is returned, `nSold` is the norm of an already truncated spectrum and the reported discarded weight "
+                            f"under-reports the true error (0 when the policy's rank equals the kept rank)")
     # P2
     for name in ("norm", "get_Schmidt_values"):
         f = O.methods[name]
@@ -75,6 +89,56 @@ def run(chk):
                     f"{f.short}() runs an in-place algorithm on the receiver instead of a shallow copy")
 
 
+
+def run_P3(chk):
+    """shallow_copy carries every mutable state field of the MPS (fields set in _MpsMpoParent.__init__ and written again elsewhere)"""
+    prog = chk.prog
+    P = prog.cls("yastn.tn.mps._mps_parent", "_MpsMpoParent")
+    init, sc = P.methods["__init__"], P.methods["shallow_copy"]
+    me = init.params[0]
+    fields = []
+    for n in A.walk_local(init.node, include_self=False):
+        if isinstance(n, ast.Assign) and isinstance(n.targets[0], ast.Attribute) and A.text(n.targets[0].value) == me:
+            fields.append(n.targets[0].attr)
+    chk.require(len(fields) >= 5, "_MpsMpoParent.__init__: state fields not found")
+    # which of them change after construction: stores `.X = ` / `.X[..] = ` / `del .X[..]` / .X.pop outside __init__ in the mps package
+    written = set()
+    for f in prog.all_funcs():
+        if not f.module.name.startswith("yastn.tn.mps") or f is init:
+            continue
+        for n in ast.walk(f.node):
+            tg = []
+            if isinstance(n, ast.Assign):
+                tg = n.targets
+            elif isinstance(n, ast.AugAssign):
+                tg = [n.target]
+            elif isinstance(n, ast.Delete):
+                tg = n.targets
+            for t in tg:
+                for e in (t.elts if isinstance(t, (ast.Tuple, ast.List)) else [t]):
+                    base = e
+                    while isinstance(base, ast.Subscript):
+                        base = base.value
+                    if isinstance(base, ast.Attribute) and base.attr in fields:
+                        written.add(base.attr)
+            if isinstance(n, ast.Call) and isinstance(n.func, ast.Attribute) and n.func.attr in ("pop", "update", "clear", "setdefault") \
+                    and isinstance(n.func.value, ast.Attribute) and n.func.value.attr in fields:
+                written.add(n.func.value.attr)
+    chk.require({"A", "pC", "factor"} <= written, f"mutable MPS state fields found: {sorted(written)} (A, pC, factor confirmed by hand)")
+    sme = sc.params[0]
+    new = [n.targets[0].id for n in A.walk_local(sc.node) if isinstance(n, ast.Assign) and isinstance(n.targets[0], ast.Name)
+           and isinstance(n.value, ast.Call) and A.text(n.value.func) in (f"type({sme})", f"{sme}.__class__", "copy.copy")]
+    chk.require(new, "shallow_copy: construction of the new object not found")
+    phi = new[0]
+    for X in sorted(written):
+        st = [n for n in A.walk_local(sc.node) if isinstance(n, ast.Assign) and A.text(n.targets[0]) == f"{phi}.{X}"
+              and any(isinstance(x, ast.Attribute) and x.attr == X and A.text(x.value) == sme for x in ast.walk(n.value))]
+        chk.verdict("P3", (sc, st[0] if st else sc.node), f"shallow_copy carries `{X}`", True if st else False,
+                    f"_MpsMpoParent.shallow_copy(): the state field `{X}` (set in __init__, modified by the algorithms) is not taken over from the "
+                    f"source: copy(), clone(), conj(), __mul__, norm(), get_Schmidt_values() ... start from shallow_copy() and then represent a "
+                    f"different state whenever `{X}` differs from its constructor default")
+
+
 MUTANTS = [
     ("factor not multiplied by nS", "yastn/tn/mps/_mps_obc.py", "            self.factor = 1 if normalize else self.factor * nS", "            self.factor = 1 if normalize else self.factor", "FF4"),
     ("plus in composition", "yastn/tn/mps/_mps_obc.py", "discarded2_local + discarded2_total - discarded2_total * discarded2_local", "discarded2_local + discarded2_total + discarded2_total * discarded2_local", "FF5"),
@@ -83,6 +147,8 @@ MUTANTS = [
     ("zipper composition simple sum", "yastn/tn/mps/_compression.py",
      "        discarded2_total = discarded2_total + discarded2_local - discarded2_total * discarded2_local\n\n        U, S, V = mask.apply_mask(U, S, V, axes=(2, 0, 0))",
      "        discarded2_total = discarded2_total + discarded2_local\n\n        U, S, V = mask.apply_mask(U, S, V, axes=(2, 0, 0))", "FF5"),
+    ("shallow copy forgets pC", "yastn/tn/mps/_mps_parent.py", "        phi.pC = self.pC\n        phi.factor = self.factor", "        phi.factor = self.factor", "P3"),
+    ("central svd with user options", "yastn/tn/mps/_mps_obc.py", "            U, S, V = svd(self.A[self.pC], axes=(0, 1), sU=1)\n            nSold = S.norm()", "            U, S, V = svd(self.A[self.pC], axes=(0, 1), sU=1, **opts_svd)\n            nSold = S.norm()", "FF5"),
     ("norm in place", "yastn/tn/mps/_mps_obc.py", "        phi = self.shallow_copy()\n        #if not phi.is_canonical(to='first'):\n        phi.canonize_(to='first', normalize=False)", "        phi = self\n        phi.canonize_(to='first', normalize=False)", "P2"),
 ]
 BENIGN = [
